@@ -1,4 +1,5 @@
 import WhVerif.Lemmas.C17Fold
+import WhVerif.Lemmas.C17Multi
 /-!
 # C17 — haplotag followed by haplotagphase reproduces the phasing that tagged the reads
 
@@ -216,5 +217,92 @@ theorem homopolymer_filter_dead (ref : Array Char) (pos cut : Nat) :
   have h1 := lengthOfHomopolymer_le ref (pos + 1) true cut
   have h2 := lengthOfHomopolymer_le ref pos false cut
   omega
+
+/-! ## multi-allelic variants (allele ids ≥ 2) of a diploid sample
+
+`haplotagphase` reads multi-allelic records by default (`--mav`); `haplotag` and `phase` skip them, so the reads are
+tagged from the biallelic variants around them.  The genotype vector of a heterozygous call is `[x, y]` with
+`x ≠ y` (`Genotype.as_vector()`: descending, so `[2, 1]` for `1/2`; the statements hold for either order), and
+`allele_to_id` / `id_to_allele` map `x ↔ 0`, `y ↔ 1`.  `V` says `a0|a1` with `{a0, a1} = {x, y}`. -/
+
+/-- **votes_agree_multiallelic.** Per-position invariant of the vote loop for arbitrary allele ids: all votes of
+error-free reads tagged from `V` land on the key `(P − 1, index of a0 in the genotype vector)`; the other key of the
+phase set stays 0 and no other phase set appears. -/
+theorem votes_agree_multiallelic {vars : List VarInfo} {pos : Nat} {info : VarInfo} {P : Int} {x y a0 a1 : Nat}
+    (hxy : x ≠ y) (ha : (a0 = x ∧ a1 = y) ∨ (a0 = y ∧ a1 = x))
+    (hinfo : infoAt vars pos = some info) (hgt : info.gt = [x, y])
+    {reads : List TRead} (hcons : Consistent pos P a0 a1 reads)
+    {votes : Votes} (h : computeVotes vars [] reads = .ok votes) :
+    (votes.lookup pos = none → qualAt pos reads = 0) ∧
+    (∀ inner, votes.lookup pos = some inner →
+      inner = [((P - 1, 0), if a0 = x then qualAt pos reads else 0), ((P - 1, 1), if a0 = x then 0 else qualAt pos reads)]) := by
+  have hi : PosInv pos (P - 1) (keyOf x a0) 0 [] := ⟨fun _ => rfl, fun inner h => by simp [List.lookup] at h⟩
+  have := computeVotes_inv_pair hxy ha hinfo hgt reads hcons hi h
+  simp only [PosInv, shape, Nat.zero_add] at this
+  refine ⟨this.1, fun inner hin => ?_⟩
+  have := this.2 inner hin
+  by_cases e : a0 = x <;> simpa [keyOf, e] using this
+
+/-- genotype `1/2` (vector `[2, 1]`), `V` says `1|2` in set 40: the read of haplotype 1 shows allele 1 (index 1), the
+read of haplotype 2 shows allele 2 (index 0): both vote for key 1 -/
+example : (computeVotes [⟨5, [2, 1], none, true⟩] [] [⟨40, 1, [⟨5, 1, 30⟩]⟩, ⟨40, 2, [⟨5, 2, 30⟩]⟩]).toOption
+    = some [(5, [((39, 0), 0), ((39, 1), 60)])] := by decide
+
+/-- **consensus_reproduces_multiallelic.** The round trip for arbitrary allele ids: if error-free reads tagged from
+`V` cast a vote of positive quality at an unphased heterozygous diploid call with genotype vector `[x, y]`, then (default
+thresholds) `haplotagphase` writes `a0|a1` with PS = `P`: `V`'s haplotype order and the phase set of the reads.
+`consensus_reproduces` is the instance `x = 0, y = 1`. -/
+theorem consensus_reproduces_multiallelic {vars : List VarInfo} {pos : Nat} {info : VarInfo} {P : Int}
+    {x y a0 a1 : Nat} (hxy : x ≠ y) (ha : (a0 = x ∧ a1 = y) ∨ (a0 = y ∧ a1 = x))
+    (hinfo : infoAt vars pos = some info) (hgt : info.gt = [x, y]) (hph : info.phase = none)
+    {reads : List TRead} (hcons : Consistent pos P a0 a1 reads) (hq : 0 < qualAt pos reads)
+    (par : Params) (hgap : par.gapThreshold ≤ 100) (honly : par.onlyIndels = false) (ref : Array Char)
+    (repaired : Bool) {cs : List Cons} (h : C17.run repaired par ref vars reads = .ok cs) :
+    phaseOut cs pos = some (P, a0, a1) := by
+  unfold C17.run at h
+  cases hv : computeVotes vars [] reads with
+  | error e => simp [hv] at h
+  | ok votes =>
+    simp only [hv] at h
+    have hi : PosInv pos (P - 1) (keyOf x a0) 0 [] := ⟨fun _ => rfl, fun inner h => by simp [List.lookup] at h⟩
+    have hinv := computeVotes_inv_pair hxy ha hinfo hgt reads hcons hi hv
+    simp only [Nat.zero_add] at hinv
+    cases hl : votes.lookup pos with
+    | none => have := hinv.1 hl; omega
+    | some inner =>
+      have hshape := hinv.2 inner hl
+      unfold consensus at h
+      cases hc : consensusVotes repaired par ref vars votes with
+      | error e => simp [hc] at h
+      | ok cs0 =>
+        simp only [hc] at h
+        obtain ⟨info', c, h1, h2, h3⟩ := find_consensusVotes hc hl
+        rw [hinfo] at h1
+        injection h1 with h1
+        subst h1
+        rw [hshape, consensusAt_shape_pair par hgap honly ref info hxy ha hgt hph (P - 1) hq repaired] at h2
+        injection h2 with h2
+        have hfind : cs.find? (·.pos == pos) = some c := by
+          injection h with h
+          subst h
+          split
+          · simp [List.find?_append, h3]
+          · exact h3
+        have hne : a0 ≠ a1 := by
+          rcases ha with ⟨rfl, rfl⟩ | ⟨rfl, rfl⟩
+          · exact hxy
+          · exact hxy.symm
+        unfold phaseOut
+        rw [hfind, ← h2]
+        simp [hne]
+
+/-- `1/2` site, `V` = `2|1:40`: haplotype-1 reads show allele 2, haplotype-2 reads allele 1; output `2|1`, PS 40 -/
+example : ((C17.run false {} "ACGTACGTAC".toList.toArray [⟨5, [2, 1], none, true⟩]
+    [⟨40, 1, [⟨5, 2, 30⟩]⟩, ⟨40, 2, [⟨5, 1, 30⟩]⟩]).toOption.map (phaseOut · 5)) = some (some (40, 2, 1)) := by decide
+
+/-- a read showing an allele that is not in the genotype (possible only without realignment: with `--reference` the
+detection is restricted to the genotype's alleles) makes `compute_votes` raise `KeyError` — outside the premise
+"error-free reads" -/
+example : (computeVotes [⟨5, [2, 0], none, true⟩] [] [⟨40, 1, [⟨5, 1, 30⟩]⟩]).toOption = none := by decide
 
 end WhVerif.Props.C17
